@@ -15,6 +15,7 @@ import numpy as np
 
 import core
 import conf_gen as cg
+from props import c13_cov as cov
 
 IMPORTS = ['From Coq Require Import QArith.', 'From E3FP Require Import Base.Prelude Model.Conformer.']
 GRID = [0, 0.25, 0.5, 0.75, 1.0, 1.5, 2.0]
@@ -34,6 +35,12 @@ def _attempt(f):
         return ('err', 'EOther')           # the model's `Raises EOther`: "No conformers generated"
     except Exception as e:                 # not an `err` constructor: the comparison fails loudly
         return ('err', 'EUnexpected_' + type(e).__name__)
+
+
+def _embed_nothing(mol, *a, **k):
+    """Stands in for an RDKit embedding that fails for every attempt: like the real call (clearConfs=True) it leaves no conformer."""
+    mol.RemoveAllConformers()
+    return []
 
 
 def _optq(x):
@@ -70,14 +77,28 @@ def draw_synth(rng):
     k = rng.choice([1, 2, 3, 3, 4, 4, 5, 6, 8, 10, 18, 24])
     ties = rng.random() < 0.4
     E = [rng.choice(GRID) * rng.choice([1, 1, 2]) + (0 if ties else (i + 1) / 1024.0) for i in range(k)]
+    all_equal = ties and rng.random() < 0.1
+    if all_equal:
+        E = [E[0]] * k
     if not ties:
         rng.shuffle(E)
+    # negative and large energies (MMFF energies are often negative): a dyadic offset keeps every value exact
+    shift = rng.choice(cov.ENERGY_SHIFTS)
+    E = [e + shift for e in E]
     sym = rng.random() < 0.7
     T = [[0.0] * k for _ in range(k)]
     for a in range(k):
         for b in range(k):
             if a < b or (not sym and a != b):
                 T[a][b] = rng.choice(GRID)
+    # some tables carry values a hair (2^-33) above a grid point: exact in double precision, not in single; a value just above the
+    # cut-off is far, one on it is far, one just below is near
+    fine = rng.random() < 0.3
+    if fine:
+        for a in range(k):
+            for b in range(k):
+                if T[a][b] > 0 and rng.random() < 0.5:
+                    T[a][b] += rng.choice([1, 3]) * 2.0 ** -33
     if sym:
         for a in range(k):
             for b in range(a):
@@ -85,7 +106,8 @@ def draw_synth(rng):
     # conformer ids: positions, or something else entirely (the code must go through GetId())
     how = rng.choice(['positions', 'positions', 'shifted', 'scattered'])
     ids = list(range(k)) if how == 'positions' else [i + 7 for i in range(k)] if how == 'shifted' else rng.sample(range(3 * k + 5), k)
-    return {'smiles': 'CCCCO', 'k': k, 'E': E, 'T': T, 'conf_ids': ids,
+    return {'smiles': rng.choice(cov.SYNTH_POOLS), 'named': rng.random() < 0.7, 'energy_shift': shift, 'all_equal': all_equal,
+            'k': k, 'E': E, 'T': T, 'conf_ids': ids, 'fine_rmsd': fine,
             'cutoff_arg': rng.choice([None, 0, 0.25, 0.25, 0.5, 0.5, 0.75, 1.0, 1.5, -2.0]),
             'ediff_arg': rng.choice([None, None, 0, 0.25, 0.5, 1.0, 2.0, 2.0, 4.0, -3]),
             'first_conformers': rng.choice([-1, 1, 2, 3, 3, 4, max(1, k - 1), max(1, k - 1), k, k, k + 1, 50, 50]),
@@ -108,10 +130,15 @@ def make_synth(c):
     if mol.GetNumConformers() != c['k']:
         md.skips.append('pool-size-differs')
         return md
+    from rdkit import Chem
+    if not c.get('named', True):
+        mol.ClearProp('_Name')
     _renumber(mol, c['conf_ids'])
     pos_of = {i: p for p, i in enumerate(c['conf_ids'])}
-    before = [np.array(cf.GetPositions()) for cf in mol.GetConformers()]
-    heavy = [a.GetIdx() for a in mol.GetAtoms() if a.GetAtomicNum() > 1]
+    full_before = [(cf.GetId(), np.array(cf.GetPositions())) for cf in mol.GetConformers()]
+    stripped = Chem.RemoveHs(Chem.Mol(mol))          # independent copy: what the returned conformers must be copies of
+    before = [np.array(stripped.GetConformer(i).GetPositions()) for i in c['conf_ids']]
+    want_smiles = Chem.MolToSmiles(stripped, isomericSmiles=True)
     g = G.ConformerGenerator(num_conf=5, rmsd_cutoff=c['cutoff_arg'], max_energy_diff=c['ediff_arg'])
     g.first_conformers = c['first_conformers']
     E, T = c['E'], c['T']
@@ -159,9 +186,15 @@ def make_synth(c):
         md.fail('filter_conformers output violates the contract directly (%s)' % v, 'contract:' + v)
     ok = new.GetNumConformers() == len(acc) and [cf.GetId() for cf in new.GetConformers()] == list(range(len(acc)))
     if ok:
-        ok = all(np.array_equal(np.array(new.GetConformer(i).GetPositions()), before[a][heavy]) for i, a in enumerate(acc))
+        ok = all(np.array_equal(np.array(new.GetConformer(i).GetPositions()), before[a]) for i, a in enumerate(acc))
     if not ok:
         md.fail('returned molecule does not carry the accepted conformers in order', 'contract:conformers-copied')
+    if Chem.MolToSmiles(Chem.Mol(new), isomericSmiles=True) != want_smiles:
+        md.fail('filter_conformers returns another molecule (graph / charges / isotopes / stereo) than its pool: %s vs %s'
+                % (Chem.MolToSmiles(Chem.Mol(new)), want_smiles), 'identity-changed')
+    full_after = [(cf.GetId(), np.array(cf.GetPositions())) for cf in mol.GetConformers()]
+    if len(full_after) != len(full_before) or any(i != j or not np.array_equal(x, y) for (i, x), (j, y) in zip(full_before, full_after)):
+        md.fail('filter_conformers modified the pool it was given', 'pool-modified')
     if any(a not in acc for a, _ in calls):
         md.fail('GetBestRMS probe is not an accepted conformer', 'contract:oracle-orientation')
     rej = {'window': 0, 'rmsd': 0, 'first': 0}
@@ -195,15 +228,35 @@ def draw_options(rng):
     return {'nc': rng.choice([-1, -1, -1, -1, 1, 2, 3, 3, 7, 12, 20, 0, -2]), 'f': rng.choice([-1, -1, -1, -1, 1, 2, 2, 5, 10, 60, 0, -3]),
             'cut': rng.choice([None, 0, 0.5, 1.25, -1.0, -0.5]), 'ed': rng.choice([None, 0, 2.5, -1.0, -4]),
             'pm': rng.choice([1, 1, 1, 1, 2, 2, 3, 3, 5, 8, 0, -1]),
+            # coverage extension: numeric type of the two float options, positional call, force-field names, seed handed to RDKit
+            'ctype': rng.choice(['float', 'float', 'int', 'np.float64']), 'positional': rng.random() < 0.3,
+            'ff': rng.choice(['uff', 'uff', 'uff', 'mmff94', 'mmff94s', 'UFF', 'mmff', '', None, 'mmff94x']),
+            'seed': rng.choice([-1, 0, 1, 42, 2 ** 31 - 1]),
             'hist': [rng.choice(sorted(cg.CHAINS)) for _ in range(rng.choice([1, 2, 3, 5]))]}
 
 
 def make_options(p):
     G, _, _ = _mods()
     md = Made(dict(p, stream='options'))
-    nc, f, cut, ed, pm = p['nc'], p['f'], p['cut'], p['ed'], p['pm']
-    r = _attempt(lambda: G.ConformerGenerator(num_conf=nc, first=f, rmsd_cutoff=cut, max_energy_diff=ed, pool_multiplier=pm))
-    mk = 'mk_generator %s %s %s %s %s' % (core.zlit(nc), core.zlit(f), _optq(cut), _optq(ed), core.zlit(pm))
+    nc, f, pm = p['nc'], p['f'], p['pm']
+    ff, seed = p.get('ff', 'uff'), p.get('seed', -1)
+    cut, cut_v = cov.conv_number(p['cut'], p.get('ctype', 'float'))
+    ed, ed_v = cov.conv_number(p['ed'], p.get('ctype', 'float'))
+
+    def construct():
+        if p.get('positional'):
+            return G.ConformerGenerator(nc, f, cut, ed, ff, pm, seed)
+        return G.ConformerGenerator(num_conf=nc, first=f, rmsd_cutoff=cut, max_energy_diff=ed, pool_multiplier=pm, forcefield=ff, seed=seed)
+    r = _attempt(construct)
+    mk = 'mk_generator %s %s %s %s %s' % (core.zlit(nc), core.zlit(f), _optq(cut_v), _optq(ed_v), core.zlit(pm))
+    if ff not in G.FORCEFIELD_CHOICES:
+        # not an argument of the model's constructor: an unknown force field is refused, whatever else is given
+        md.payload['impl'] = r[1] if r[0] == 'err' else 'accepted'
+        md.stats = {'ctor_error': 1, 'bad_forcefield': 1}
+        if r != ('err', 'EValue'):
+            md.fail('constructor does not refuse forcefield=%r with a ValueError' % (ff,), 'ctor:forcefield')
+        md.stats['checks'] = 1
+        return md
     if r[0] == 'err':
         md.payload['impl'] = r[1]
         md.stats = {'ctor_error': 1}
@@ -214,9 +267,14 @@ def make_options(p):
                                                cg.qlit(g.rmsd_cutoff), cg.qlit(g.max_energy_diff), core.zlit(g.pool_multiplier))
     trace, asked = [], []
 
+    seeds_seen = []
+
     def fake_embed(mol, numConfs=None, **kw):
         asked.append(int(numConfs))
+        seeds_seen.append(kw.get('randomSeed', 'absent'))
         return []
+    if (g.forcefield, g.seed) != (ff, seed):
+        md.fail('constructor stores forcefield/seed %r instead of %r' % ((g.forcefield, g.seed), (ff, seed)), 'ctor:forcefield-seed')
     for n in p['hist']:
         with cg.patched_allchem(EmbedMultipleConfs=fake_embed):
             g.embed_molecule(chain_mol(n)[0])
@@ -229,9 +287,11 @@ def make_options(p):
     md.case('', 'match %s with Ok g => ctor_obs_eqb (ctor_obs g) %s && trace_eqb (resolve_trace g %s) %s | Raises _ => false end' % (mk, obs0, rs, tr_lit),
             'match %s with Ok g => resolve_trace g %s | Raises _ => [] end' % (mk, rs))
     # the reuse clause directly: the last molecule through a fresh object resolves the same values
-    g2 = G.ConformerGenerator(num_conf=nc, first=f, rmsd_cutoff=cut, max_energy_diff=ed, pool_multiplier=pm)
+    g2 = G.ConformerGenerator(num_conf=nc, first=f, rmsd_cutoff=cut, max_energy_diff=ed, pool_multiplier=pm, forcefield=ff, seed=seed)
     with cg.patched_allchem(EmbedMultipleConfs=fake_embed):
         g2.embed_molecule(chain_mol(p['hist'][-1])[0])
+    if any(x != 'absent' and x != seed for x in seeds_seen):
+        md.fail('embed_molecule hands RDKit another random seed (%r) than the generator\'s (%r)' % (seeds_seen, seed), 'seed-not-forwarded')
     if (g2.max_conformers, g2.first_conformers, asked[-1]) != (trace[-1][2], trace[-1][3], trace[-1][4]):
         md.fail('resolved options depend on the molecules processed before', 'reuse:resolved-options')
     md.nontrivial = len(set(x >= 8 for x in nrots)) > 1 or nc != -1
@@ -240,7 +300,8 @@ def make_options(p):
 
 # --------------------------------------------------------------------------- real RDKit pools
 def pool_like_impl(smiles, name, n_confs, seed, forcefield):
-    """Rebuild, with RDKit only, the pool e3fp would embed and minimise for this molecule (same calls, same seed)."""
+    """Rebuild, with RDKit only, the pool the generator is documented to embed and minimise for this molecule (same embedding call, same seed,
+    the force field the option names)."""
     from rdkit import Chem
     from rdkit.Chem import AllChem
     from e3fp.conformer.util import mol_from_smiles
@@ -248,14 +309,25 @@ def pool_like_impl(smiles, name, n_confs, seed, forcefield):
     Chem.SanitizeMol(m)
     AllChem.EmbedMultipleConfs(m, numConfs=n_confs, maxAttempts=10 * n_confs, pruneRmsThresh=-1.0, randomSeed=seed,
                                ignoreSmoothingFailures=True)
-    for cf in m.GetConformers():
-        if forcefield == 'uff':
-            AllChem.UFFGetMoleculeForceField(m, confId=cf.GetId()).Minimize()
-        else:
-            AllChem.MMFFSanitizeMolecule(m)
-            p = AllChem.MMFFGetMoleculeProperties(m, mmffVariant=forcefield)
-            AllChem.MMFFGetMoleculeForceField(m, p, confId=cf.GetId()).Minimize()
+    cov.minimise_by_id(m, forcefield)
     return m
+
+
+def forcefield_defect(md, p):
+    """forcefield='mmff94s' on a molecule for which the generator does not compute MMFF94s energies: reported under its own key, and the
+    rest of the case (which would only repeat it) is not run."""
+    if p.get('forcefield') != 'mmff94s':
+        return False
+    names = [s for _, s in p['sequence']] if 'sequence' in p else [p['smiles']]
+    for smi in names:
+        d = cov.mmff94s_defect(_mods()[0], smi)
+        if d:
+            md.fail('forcefield="mmff94s": the energies the generator minimises, sorts and reports are not RDKit\'s MMFF94s energies of the conformers '
+                    '(they equal the MMFF94 ones): %s' % smi, cov.KEY_MMFF94S, **d)
+            md.skips.append('mmff94s-defect-reported-instead')
+            md.stats['mmff94s_defect'] = 1
+            return True
+    return False
 
 
 def unstable_reason(E, T, cutoff, ediff):
@@ -282,33 +354,68 @@ def _check_symmetry(md, T):
                 'rmsd_reported_sym does not hold' % (SYM_TOL, a), 'assumption:getbestrms-symmetry', rmsd_table=T)
 
 
-def draw_real(rng, i):
-    name, smi = cg.MOLS[i % len(cg.MOLS)]
+def draw_real(rng, i, off=0):
+    mols = cov.all_mols()
+    name, smi = mols[(i * 5 + off) % len(mols)]
     return {'molecule': name, 'smiles': smi, 'forcefield': rng.choice(['uff', 'uff', 'mmff94', 'mmff94s']), 'num_conf': rng.choice([4, 5, 6, 8]),
-            'rmsd_cutoff': rng.choice([None, 0.3, 0.5, 0.8, 1.2]), 'max_energy_diff': rng.choice([None, 0.5, 1.0, 2.0, 5.0]),
-            'first': rng.choice([-1, -1, 1, 2, 3]), 'seed': rng.randrange(1, 10 ** 6)}
+            'rmsd_cutoff': rng.choice([None, 0.1, 0.2, 0.3, 0.5, 0.8, 1.2]), 'max_energy_diff': rng.choice([None, None, 0.5, 1.0, 2.0, 5.0]),
+            'first': rng.choice([-1, -1, -1, 1, 2, 3]), 'seed': rng.choice([rng.randrange(1, 10 ** 6)] * 5 + cov.SEEDS_SPECIAL),
+            # coverage extension: conformer ids of the pool that are not the positions 0..k-1
+            'ids': rng.choice([None, None, 'shifted', 'scattered', 'gapped']), 'ids_seed': rng.randrange(10 ** 6)}
 
 
 def make_real(p):
-    """filter_conformers on a pool embedded and minimised by e3fp; energies and RMSDs re-measured independently on a copy."""
+    """filter_conformers on a pool embedded and minimised by e3fp; energies and RMSDs re-measured independently on a copy.
+    With p['ids'] the pool's conformer ids are renumbered / thinned out first, and the minimisation is repeated with RDKit only."""
     from rdkit import Chem
     G, _, U = _mods()
     md = Made(dict(p, stream='real-filter'))
+    if forcefield_defect(md, p):
+        return md
     g = G.ConformerGenerator(num_conf=p['num_conf'], first=p['first'], rmsd_cutoff=p['rmsd_cutoff'], max_energy_diff=p['max_energy_diff'],
                              forcefield=p['forcefield'], seed=p['seed'])
     pool = g.embed_molecule(U.mol_from_smiles(p['smiles'], p['molecule']))
     if not pool.GetNumConformers():
         md.skips.append('embedding-returned-no-conformer')
         return md
+    if p.get('ids'):
+        cov.scatter_ids(pool, p['ids'], p.get('ids_seed', 0))
+    twin = Chem.Mol(pool)
+    cov.minimise_by_id(twin, p['forcefield'])
     g.minimize_conformers(pool)
     ref = Chem.Mol(pool)
-    E = cg.measure_energies(ref, p['forcefield'])
+    E = cov.measure_energies(ref, p['forcefield'])
     T = cg.measure_rmsds(ref)
+    E_twin = cov.measure_energies(twin, p['forcefield'])
+    if [cf.GetId() for cf in twin.GetConformers()] != [cf.GetId() for cf in pool.GetConformers()] or \
+            any(abs(a - b) > 1e-9 for a, b in zip(E, E_twin)):
+        md.fail('minimize_conformers does not leave each conformer (addressed by its id) at the minimum RDKit finds from the same start',
+                'minimise:by-id', energies_after_e3fp=E, energies_after_rdkit_only=E_twin)
+    E_impl = [float(x) for x in g.get_conformer_energies(Chem.Mol(pool))]
+    if len(E_impl) != len(E) or any(abs(a - b) > 1e-9 for a, b in zip(E, E_impl)):
+        md.fail('get_conformer_energies does not return the energies of the conformers in pool order', 'energies:by-id',
+                energies_impl=E_impl, energies_remeasured=E)
+    want_smiles = Chem.MolToSmiles(Chem.RemoveHs(Chem.Mol(pool)), isomericSmiles=True)
+    full_before = [(cf.GetId(), np.array(cf.GetPositions())) for cf in pool.GetConformers()]
     new, acc, en, rm = g.filter_conformers(pool)
     acc = [int(x) for x in acc]
-    md.payload.update(energies_remeasured=E, rmsd_remeasured=T,
+    md.payload.update(energies_remeasured=E, rmsd_remeasured=T, conformer_ids=[i for i, _ in full_before],
                       impl={'accepted': acc, 'energies': [float(x) for x in en], 'rmsds': [[float(x) for x in r] for r in rm]})
+    full_after = [(cf.GetId(), np.array(cf.GetPositions())) for cf in pool.GetConformers()]
+    if len(full_after) != len(full_before) or any(i != j or not np.array_equal(x, y) for (i, x), (j, y) in zip(full_before, full_after)):
+        md.fail('filter_conformers modified the pool it was given', 'pool-modified')
+    if Chem.MolToSmiles(Chem.Mol(new), isomericSmiles=True) != want_smiles:
+        md.fail('filter_conformers returns another molecule (graph / charges / isotopes / stereo) than its pool: %s vs %s'
+                % (Chem.MolToSmiles(Chem.Mol(new)), want_smiles), 'identity-changed')
+    # the returned conformers are the accepted ones of the pool, in order (rigid motions allowed: GetBestRMS aligns)
+    heavy = Chem.RemoveHs(Chem.Mol(ref))
+    hpos = [np.array(cf.GetPositions()) for cf in heavy.GetConformers()]
+    if new.GetNumConformers() != len(acc) or [cf.GetId() for cf in new.GetConformers()] != list(range(len(acc))) or \
+            any(cov.kabsch_rmsd(np.array(new.GetConformer(i).GetPositions()), hpos[a]) > 1e-4 for i, a in enumerate(acc)):
+        md.fail('returned molecule does not carry the accepted conformers in order', 'contract:conformers-copied')
     _check_symmetry(md, T)
+    md.stats['ids'] = p.get('ids') or 'positions'
+    md.stats['mol_class'] = cov.CLASS_OF.get(p['molecule'], 'first-pool')
     why = unstable_reason(E, T, g.rmsd_cutoff, g.max_energy_diff)
     if why:
         md.skips.append(why)
@@ -346,12 +453,16 @@ def _res_lit(r):
     return '(Ok (%s, %s))' % (core.zlit(o['max_conformers']), cg.out_lit(o['indices'], o['energies'], o['rmsds']))
 
 
-def draw_pipeline(rng, i):
-    name, smi = cg.MOLS[(i * 7 + 3) % len(cg.MOLS)]
-    nc = rng.choice([2, 3, 4, 5])
-    return {'molecule': name, 'smiles': smi, 'forcefield': rng.choice(['uff', 'uff', 'mmff94']), 'num_conf': nc, 'pool_multiplier': rng.choice([1, 2, 3]),
-            'first': rng.choice([-1, -1, 1, 2, nc + 2]), 'rmsd_cutoff': rng.choice([None, 0.4, 0.5, 1.0]), 'max_energy_diff': rng.choice([None, 1.0, 3.0]),
-            'seed': rng.randrange(1, 10 ** 6), 'empty_pool': i % 8 == 5}
+def draw_pipeline(rng, i, off=0):
+    mols = cov.all_mols()
+    name, smi = mols[(i * 11 + 3 + off) % len(mols)]
+    nc = rng.choice([1, 2, 3, 4, 5, 5, 6])
+    return {'molecule': name, 'smiles': smi, 'forcefield': rng.choice(['uff', 'uff', 'mmff94', 'mmff94s']), 'num_conf': nc, 'pool_multiplier': rng.choice([1, 2, 3]),
+            'first': rng.choice([-1, -1, -1, 1, 2, nc + 2]), 'rmsd_cutoff': rng.choice([None, 0.1, 0.2, 0.4, 0.5, 1.0]),
+            'max_energy_diff': rng.choice([None, None, 1.0, 3.0]),
+            'seed': rng.choice([rng.randrange(1, 10 ** 6)] * 5 + cov.SEEDS_SPECIAL), 'empty_pool': i % 8 == 5,
+            # coverage extension: the same molecule handed over in another legal representation
+            'variant': rng.choice(cov.INPUT_VARIANTS)}
 
 
 def make_pipeline(p):
@@ -360,16 +471,21 @@ def make_pipeline(p):
     from rdkit.Chem import AllChem
     G, _, U = _mods()
     md = Made(dict(p, stream='pipeline'))
+    if forcefield_defect(md, p):
+        return md
     kw = _kw(p)
     name, smi = p['molecule'], p['smiles']
-    src = U.mol_from_smiles(smi, name)
+    variant = p.get('variant', 'propertymol')
+    src = cov.build_input(smi, name, variant)
     nrot = int(AllChem.CalcNumRotatableBonds(Chem.AddHs(src)))
     n_confs = p['num_conf'] * p['pool_multiplier']
     sig0 = cg.mol_signature(src)
     g = G.ConformerGenerator(get_values=True, sparse_rmsd=False, **kw)
+    md.stats['variant'] = variant
+    md.stats['mol_class'] = cov.CLASS_OF.get(name, 'first-pool')
     if p.get('empty_pool'):
         # the branch "No conformers generated": RDKit embeds nothing
-        with cg.patched_allchem(EmbedMultipleConfs=lambda *a, **k: []):
+        with cg.patched_allchem(EmbedMultipleConfs=_embed_nothing):
             r = _attempt(lambda: gen_obs(*g.generate_conformers(src)))
         md.payload['impl'] = r[1]
         model = 'snd (tab_generate [%s] [%s] g 0%%nat)' % (core.zlit(nrot), _pool_lit(n_confs, [], []))
@@ -387,6 +503,10 @@ def make_pipeline(p):
     want = Chem.MolToSmiles(Chem.RemoveHs(Chem.Mol(src)), isomericSmiles=True)
     if o1['smiles'] != want:
         md.fail('returned molecule differs from the input (graph/stereo): %s vs %s' % (o1['smiles'], want), 'identity-changed')
+    if src.HasProp('_Name') and (not mol1.HasProp('_Name') or mol1.GetProp('_Name') != src.GetProp('_Name')):
+        md.fail('returned molecule does not carry the name of the input', 'identity-changed:name')
+    if mol1 is src:
+        md.fail('generate_conformers returns its input object', 'input-modified')
     for cf in mol1.GetConformers():
         cp = Chem.Mol(mol1)
         Chem.AssignStereochemistryFrom3D(cp, confId=cf.GetId(), replaceExistingTags=True)
@@ -396,7 +516,14 @@ def make_pipeline(p):
     mol2, v2 = G.ConformerGenerator(get_values=True, sparse_rmsd=False, **kw).generate_conformers(U.mol_from_smiles(smi, name))
     o2 = gen_obs(mol2, v2)
     if o1 != o2:
-        md.fail('two seeded runs differ', 'seed-not-reproducible', first_run=o1, second_run=o2)
+        o3 = o2
+        if variant != 'propertymol':
+            o3 = gen_obs(*G.ConformerGenerator(get_values=True, sparse_rmsd=False, **kw).generate_conformers(cov.build_input(smi, name, variant)))
+        if o1 != o3:
+            md.fail('two seeded runs differ', 'seed-not-reproducible', first_run=o1, second_run=o3)
+        else:
+            md.fail('the result depends on how the molecule is handed over (%s vs mol_from_smiles), not only on molecule, options and seed' % variant,
+                    'depends-on-input-representation', this_variant=o1, from_smiles=o2)
     stored = U.get_conformer_energies_from_mol(mol1)
     if stored is None or [('%.4f' % e) for e in o1['energies']] != o1['prop'].split('|') or len(stored) != mol1.GetNumConformers():
         md.fail('energies stored on the molecule are not the returned ones at 4 decimals', 'stored-energies')
@@ -409,10 +536,14 @@ def make_pipeline(p):
         md.fail('more conformers than requested (first/maximum): %d returned, cap %d' % (len(o1['indices']), cap), 'count')
     # the model's `generate` (constructor, option resolution, pool size, filter) on a pool rebuilt without e3fp
     pool = pool_like_impl(smi, name, n_confs, p['seed'], p['forcefield'])
-    E = cg.measure_energies(pool, p['forcefield'])
+    E = cov.measure_energies(pool, p['forcefield'])
     T = cg.measure_rmsds(pool)
     md.payload.update(energies_remeasured=E, rmsd_remeasured=T)
     _check_symmetry(md, T)
+    # the returned conformers are the pool conformers named by the returned indices, in order (rigid motions allowed)
+    hpos = [np.array(cf.GetPositions()) for cf in Chem.RemoveHs(Chem.Mol(pool)).GetConformers()]
+    if any(a >= len(hpos) or cov.kabsch_rmsd(np.array(mol1.GetConformer(i).GetPositions()), hpos[a]) > 1e-4 for i, a in enumerate(o1['indices'])):
+        md.fail('the returned conformers are not the pool conformers named by the returned indices', 'contract:conformers-copied')
     why = unstable_reason(E, T, g.rmsd_cutoff, g.max_energy_diff)
     if why:
         md.skips.append(why)
@@ -425,43 +556,112 @@ def make_pipeline(p):
     return md
 
 
-def draw_reuse(rng):
-    seq = [list(cg.MOLS[rng.randrange(len(cg.MOLS))]) for _ in range(rng.choice([2, 3, 4]))]
+REUSE_PATTERNS = ['plain', 'aba', 'error-mid', 'interleave', 'aba']
+
+
+def draw_reuse(rng, i=0):
+    mols = cov.all_mols()
+    seq = [list(mols[rng.randrange(len(mols))]) for _ in range(rng.choice([2, 3, 4]))]
     if rng.random() < 0.5:
         seq.insert(rng.randrange(len(seq) + 1), ['decane', 'CCCCCCCCCCCC'])     # 9 rotatable bonds: resolves 200 when num_conf = -1
-    nc = rng.choice([-1, 3, 4, 4])
+    nc = -1 if i % 8 == 7 else rng.choice([3, 4, 4])
     p = {'num_conf': nc, 'first': rng.choice([-1, 2, 6]) if nc != -1 else 2, 'pool_multiplier': 1 if nc == -1 else rng.choice([1, 2]),
-         'rmsd_cutoff': rng.choice([0.5, 1.0]), 'max_energy_diff': rng.choice([None, 2.0]), 'forcefield': 'uff', 'seed': rng.randrange(1, 10 ** 6)}
+         'rmsd_cutoff': rng.choice([0.1, 0.3, 0.5, 1.0]), 'max_energy_diff': rng.choice([None, 2.0]), 'forcefield': rng.choice(['uff', 'uff', 'mmff94', 'mmff94s']),
+         'seed': rng.choice([rng.randrange(1, 10 ** 6)] * 5 + cov.SEEDS_SPECIAL)}
     p['sequence'] = seq[:2] if nc == -1 else seq     # 50/200 conformers per molecule: keep it short
+    # coverage extension: A B A with the same Python object for both A; a failing molecule in the middle; another generator object with
+    # other options working on the same molecules in between
+    p['pattern'] = 'plain' if nc == -1 else REUSE_PATTERNS[i % len(REUSE_PATTERNS)]
+    if p['pattern'] == 'aba':
+        p['sequence'] = [seq[0], seq[1], seq[0]] + seq[2:3]
+    p['fail_at'] = rng.randrange(len(p['sequence']) - 1) if p['pattern'] == 'error-mid' else None
+    # 'aba' keeps every input object alive and ends by relabelling one atom of A in place and asking again; the other patterns hand
+    # over temporaries (CPython then reuses their addresses for later molecules)
+    p['keep_objects'] = p['pattern'] == 'aba' or rng.random() < 0.3
     return p
 
 
 def make_reuse(p):
     """One generator object over a sequence of molecules: equal to a fresh object per molecule (implementation), and equal to the
     model's generate (after_history ...) on independently rebuilt pools (explicit num_conf; the auto sizes 50/200 are left to the
-    `options` stream and to the implementation-only comparison)."""
+    `options` stream and to the implementation-only comparison).  A molecule named twice in the sequence is the same Python object
+    both times; at p['fail_at'] RDKit embeds nothing (RuntimeError) and the object is used on; with pattern 'interleave' a second
+    generator object with other options processes each molecule first."""
     from rdkit import Chem
     from rdkit.Chem import AllChem
     G, _, U = _mods()
     md = Made(dict(p, stream='reuse'))
+    if forcefield_defect(md, p):
+        return md
     kw = _kw(p)
     shared = G.ConformerGenerator(get_values=True, sparse_rmsd=False, **kw)
+    other_kw = dict(kw, num_conf=kw['num_conf'] + 2 if kw['num_conf'] != -1 else 3, rmsd_cutoff=0.2, first=-1, max_energy_diff=None)
+    other = G.ConformerGenerator(get_values=True, sparse_rmsd=False, **other_kw)
     outs, nrots, pools, unstable = [], [], [], None
-    for name, smi in p['sequence']:
-        a = gen_obs(*shared.generate_conformers(U.mol_from_smiles(smi, name)))
+    objs, sigs, returned = {}, {}, []
+    keep = p.get('keep_objects', True)
+    for step, (name, smi) in enumerate(p['sequence']):
+        if not keep:
+            objs.pop(name, None)
+        if name not in objs:
+            objs[name] = U.mol_from_smiles(smi, name)
+            sigs[name] = cg.mol_signature(objs[name])
+        src = objs[name]
+        n_confs = p['num_conf'] * p['pool_multiplier']
+        if p.get('pattern') == 'interleave':
+            x = gen_obs(*other.generate_conformers(src))
+            y = gen_obs(*G.ConformerGenerator(get_values=True, sparse_rmsd=False, **other_kw).generate_conformers(U.mol_from_smiles(smi, name)))
+            if x != y:
+                md.fail('a reused generator returns something else than a fresh one for %s' % name, 'reuse:result', reused=x, fresh=y)
+        if p.get('fail_at') == step:
+            with cg.patched_allchem(EmbedMultipleConfs=_embed_nothing):
+                r = _attempt(lambda: gen_obs(*shared.generate_conformers(src)))
+            outs.append(r)
+            nrots.append(int(AllChem.CalcNumRotatableBonds(Chem.AddHs(Chem.MolFromSmiles(smi)))))
+            pools.append(_pool_lit(n_confs, [], []))
+            continue
+        got = shared.generate_conformers(src)
+        returned.append(got[0])
+        a = gen_obs(*got)
+        del got
+        if not keep:
+            del src
+            objs.pop(name, None)        # a true temporary: its address is free for the next molecule
         b = gen_obs(*G.ConformerGenerator(get_values=True, sparse_rmsd=False, **kw).generate_conformers(U.mol_from_smiles(smi, name)))
         if a != b:
             md.fail('a reused generator returns something else than a fresh one for %s' % name, 'reuse:result', reused=a, fresh=b)
-        outs.append(a)
+        outs.append(('ok', a))
         if p['num_conf'] != -1:
-            n_confs = p['num_conf'] * p['pool_multiplier']
             pool = pool_like_impl(smi, name, n_confs, p['seed'], p['forcefield'])
-            E, T = cg.measure_energies(pool, p['forcefield']), cg.measure_rmsds(pool)
+            E, T = cov.measure_energies(pool, p['forcefield']), cg.measure_rmsds(pool)
             _check_symmetry(md, T)
             unstable = unstable or unstable_reason(E, T, shared.rmsd_cutoff, shared.max_energy_diff)
             nrots.append(int(AllChem.CalcNumRotatableBonds(Chem.AddHs(Chem.MolFromSmiles(smi)))))
             pools.append(_pool_lit(n_confs, E, T))
-    md.payload['impl'] = [{x: o[x] for x in ('indices', 'energies', 'max_conformers')} for o in outs]
+    # the options of the object are what they were made: nothing a molecule (or a failure) did is left behind
+    opt_names = ('num_conf', 'first', 'pool_multiplier', 'rmsd_cutoff', 'max_energy_diff', 'forcefield', 'seed', 'get_values', 'sparse_rmsd', 'store_energies')
+    made = G.ConformerGenerator(get_values=True, sparse_rmsd=False, **kw)
+    drift = {n: (getattr(shared, n, None), getattr(made, n, None)) for n in opt_names if getattr(shared, n, None) != getattr(made, n, None)}
+    if drift:
+        md.fail('the options of a generator object changed while it processed molecules: %s' % drift, 'reuse:options-drift')
+    for name, sig in sigs.items():
+        if name in objs and cg.mol_signature(objs[name]) != sig:
+            md.fail('generate_conformers modified its input molecule', 'input-modified', molecule=name)
+    if len(set(id(m) for m in returned)) != len(returned) or any(m is o for m in returned for o in objs.values()):
+        md.fail('two calls return the same molecule object (or the input itself): results are aliased', 'reuse:aliased-result')
+    if p.get('pattern') == 'aba' and keep:
+        # the same Python object, changed in place between two calls (one carbon relabelled 14C): the generator must see the change
+        name, smi = p['sequence'][0]
+        src = objs[name]
+        [at for at in src.GetAtoms() if at.GetAtomicNum() == 6][0].SetIsotope(14)
+        x = gen_obs(*shared.generate_conformers(src))
+        y = gen_obs(*G.ConformerGenerator(get_values=True, sparse_rmsd=False, **kw).generate_conformers(Chem.Mol(src)))
+        want = Chem.MolToSmiles(Chem.RemoveHs(Chem.Mol(src)), isomericSmiles=True)
+        if x != y or x['smiles'] != want:
+            md.fail('a molecule object changed in place between two calls of one generator is not processed as it is now (%s, wanted %s)'
+                    % (x['smiles'], want), 'reuse:changed-object', reused=x, fresh=y)
+        md.stats['changed_in_place'] = 1
+    md.payload['impl'] = [{x: o[1][x] for x in ('indices', 'energies', 'max_conformers')} if o[0] == 'ok' else o[1] for o in outs]
     if p['num_conf'] == -1:
         md.skips.append('auto-sized-pool-not-sent-to-coq')
     elif unstable:
@@ -471,66 +671,306 @@ def make_reuse(p):
         for i, o in enumerate(outs):
             hist = cg.natlist(range(i))
             model = 'snd (tab_generate %s %s (tab_after %s %s g %s) %d%%nat)' % (nl, pl, nl, pl, hist, i)
-            md.case('step%d' % i, 'match %s with Ok g => gen_result_close2 %s %s (%s) %s | Raises _ => false end' % (_mk_lit(kw), TOL_E, TOL_R, model, _res_lit(('ok', o))),
+            md.case('step%d' % i, 'match %s with Ok g => gen_result_close2 %s %s (%s) %s | Raises _ => false end' % (_mk_lit(kw), TOL_E, TOL_R, model, _res_lit(o)),
                     'match %s with Ok g => %s | Raises e => Raises e end' % (_mk_lit(kw), model))
+    md.stats['pattern'] = p.get('pattern', 'plain')
+    md.stats['same_object_twice'] = int(keep and len(objs) < len(p['sequence']))
+    md.stats['temporaries'] = int(not keep)
     md.nontrivial = True
     return md
 
 
-def draw_wrapper(rng):
-    name, smi = cg.MOLS[rng.randrange(len(cg.MOLS))]
-    return {'molecule': name, 'smiles': smi, 'num_conf': rng.choice([3, 4, 5]), 'first': rng.choice([-1, 2]), 'pool_multiplier': rng.choice([1, 2]),
-            'rmsd_cutoff': rng.choice([0.4, 0.8]), 'max_energy_diff': rng.choice([None, 3.0]), 'forcefield': rng.choice(['uff', 'mmff94']),
-            'seed': rng.randrange(1, 10 ** 6)}
+def draw_wrapper(rng, i=0):
+    mols = cov.all_mols()
+    name, smi = mols[rng.randrange(len(mols))]
+    p = {'molecule': name, 'smiles': smi, 'num_conf': rng.choice([3, 4, 5]), 'first': rng.choice([-1, 2]), 'pool_multiplier': rng.choice([1, 2]),
+         'rmsd_cutoff': rng.choice([0.4, 0.8]), 'max_energy_diff': rng.choice([None, 3.0]), 'forcefield': rng.choice(['uff', 'mmff94', 'mmff94s']),
+         'seed': rng.choice([rng.randrange(1, 10 ** 6)] * 5 + cov.SEEDS_SPECIAL),
+         # coverage extension: where the name comes from, positional call, saving (compression, explicit file, existing file, overwrite),
+         # standardisation of an already standard molecule, options the generator refuses (-> False), the library defaults
+         'name_mode': rng.choice(['prop', 'prop', 'explicit', 'none']), 'positional': rng.random() < 0.3, 'standardise': False,
+         'save': None, 'bad_option': None, 'defaults': False}
+    kind = i % 6
+    if kind in (1, 2):
+        p['save'] = {'compress': rng.choice([0, 1, 2, None, 7]), 'out_file': rng.random() < 0.3, 'pre_exists': rng.random() < 0.5,
+                     'overwrite': rng.random() < 0.5}
+    elif kind == 3:
+        p['bad_option'] = rng.choice(['num_conf', 'first', 'pool_multiplier', 'forcefield', 'empty-pool'])
+    elif kind == 4:
+        p['molecule'], p['smiles'] = rng.choice([m for m in mols if m[0] in cov.STANDARD_SAFE])
+        p['standardise'] = True
+    elif kind == 5:
+        p['molecule'], p['smiles'] = rng.choice([('ethanol', 'CCO'), ('propanol', 'CCCO'), ('d2_propanol', '[2H]C([2H])(O)CC')])
+        p['defaults'] = True
+    return p
 
 
 def make_wrapper(p):
+    """e3fp.conformer.generate.generate_conformers against the generator run with the same options and seed."""
+    import os
+    from rdkit import Chem
     from rdkit.Chem import AllChem
     G, GEN, U = _mods()
     md = Made(dict(p, stream='wrapper'))
+    if forcefield_defect(md, p):
+        return md
     kw = _kw(p)
     name, smi = p['molecule'], p['smiles']
+    mode = p.get('name_mode', 'prop')
     src = U.mol_from_smiles(smi, name)
+    given = None
+    if mode == 'none':
+        src.ClearProp('_Name')
+    elif mode == 'explicit':
+        given = 'given.%s-x_y' % name
+    want_name = given if mode == 'explicit' else name if mode == 'prop' else None
     sig0 = cg.mol_signature(src)
-    r = GEN.generate_conformers(src, standardise=False, save=False, **kw)
-    if r is False:
-        md.fail('wrapper generate_conformers returned False', 'wrapper:false')
+    call_kw = dict(kw)
+    if p.get('defaults'):
+        # only the seed is given: everything else is the library default (num_conf = -1 -> 50 for these molecules, first = -1, ...)
+        call_kw = {'seed': kw['seed']}
+        kw = dict(num_conf=G.NUM_CONF_DEF, first=G.FIRST_DEF, pool_multiplier=G.POOL_MULTIPLIER_DEF, rmsd_cutoff=G.RMSD_CUTOFF_DEF,
+                  max_energy_diff=G.MAX_ENERGY_DIFF_DEF, forcefield=G.FORCEFIELD_DEF, seed=kw['seed'])
+    bad = p.get('bad_option')
+    if bad in ('num_conf', 'first', 'pool_multiplier'):
+        call_kw[bad] = 0
+    elif bad == 'forcefield':
+        call_kw['forcefield'] = 'amber'
+    save = p.get('save')
+    tmp = cov.scratch_dir() if save else None
+    try:
+        extra = {'standardise': bool(p.get('standardise')), 'save': bool(save)}
+        path = None
+        if save:
+            ext = {0: '', 1: '.gz', 2: '.bz2'}.get(save['compress'], '')
+            extra.update(out_dir=tmp, compress=save['compress'], overwrite=save['overwrite'])
+            if save['out_file']:
+                path = os.path.join(tmp, 'sub', 'explicit.sdf' + ('.gz' if save['compress'] == 1 else ''))
+                extra['out_file'] = path
+            elif want_name is not None:
+                path = os.path.join(tmp, '%s.sdf%s' % (want_name, ext))
+            if save['pre_exists'] and path is not None:
+                os.makedirs(os.path.dirname(path), exist_ok=True)
+                with open(path, 'w') as f:
+                    f.write('SENTINEL')
+
+        def call():
+            if p.get('positional') and not p.get('defaults'):
+                return GEN.generate_conformers(src, given, extra['standardise'], call_kw['num_conf'], call_kw['first'], call_kw['pool_multiplier'],
+                                               call_kw['rmsd_cutoff'], call_kw['max_energy_diff'], call_kw['forcefield'], call_kw['seed'],
+                                               **{k: v for k, v in extra.items() if k != 'standardise'})
+            return GEN.generate_conformers(src, name=given, **dict(call_kw, **extra))
+        if bad == 'empty-pool':
+            with cg.patched_allchem(EmbedMultipleConfs=_embed_nothing):
+                rr = _attempt(call)
+        else:
+            rr = _attempt(call)
+        md.stats.update(name_mode=mode, save=bool(save), bad_option=bad or '', standardise=bool(p.get('standardise')), defaults=bool(p.get('defaults')),
+                        positional=bool(p.get('positional') and not p.get('defaults')))
+        if save and path is None:
+            # nothing to name the file after: the documented ValueError
+            md.payload['impl'] = rr[1] if rr[0] == 'err' else 'returned'
+            if rr != ('err', 'EValue'):
+                md.fail('saving a molecule without a name and without out_file does not raise ValueError', 'wrapper:save-without-name')
+            md.stats['checks'] = 1
+            return md
+        if rr[0] == 'err':
+            md.payload['impl'] = rr[1]
+            md.fail('wrapper generate_conformers raised %s' % rr[1], 'wrapper:raised')
+            return md
+        r = rr[1]
+        if bad:
+            md.payload['impl'] = repr(r)[:200]
+            if r is not False:
+                md.fail('wrapper does not return False for an option the generator refuses (%s)' % bad, 'wrapper:bad-option')
+            if cg.mol_signature(src) != sig0:
+                md.fail('wrapper result inconsistent: input modified', 'wrapper:input modified')
+            md.stats['checks'] = 1
+            return md
+        if save and save['pre_exists'] and not save['overwrite']:
+            md.payload['impl'] = repr(r)[:200]
+            if r is not False or open(path).read() != 'SENTINEL':
+                md.fail('an existing output file is not left alone (overwrite=False): returned %r' % (r,), 'wrapper:existing-file')
+            md.stats['checks'] = 1
+            return md
+        if r is False:
+            md.fail('wrapper generate_conformers returned False', 'wrapper:false')
+            return md
+        mol, rname, nrot, maxc, idx, en, sparse = r
+        full_mol, v = G.ConformerGenerator(get_values=True, sparse_rmsd=False, **kw).generate_conformers(U.mol_from_smiles(smi, name))
+        full = gen_obs(full_mol, v)
+        stored = U.get_conformer_energies_from_mol(mol)
+        md.payload['impl'] = {'indices': [int(x) for x in idx], 'energies': [float(x) for x in en], 'sparse_rmsd': [float(x) for x in sparse],
+                              'name': rname, 'max_conformers': int(maxc)}
+        problems = []
+        if rname != want_name:
+            problems.append('name')
+        if nrot != AllChem.CalcNumRotatableBonds(src):
+            problems.append('nrot')
+        if maxc != full['max_conformers'] or (kw['num_conf'] != -1 and maxc != kw['num_conf']):
+            problems.append('max_conformers')
+        if [int(x) for x in idx] != full['indices'] or [float(x) for x in en] != full['energies']:
+            problems.append('indices/energies differ from the generator run with the same seed')
+        if mol.GetNumConformers() != len(idx) or len(en) != len(idx):
+            problems.append('lengths')
+        if [np.array(cf.GetPositions()).round(12).tolist() for cf in mol.GetConformers()] != full['coords']:
+            problems.append('coordinates differ from the generator run with the same seed')
+        if cg.canon_smiles(mol) != Chem.MolToSmiles(Chem.RemoveHs(Chem.Mol(src)), isomericSmiles=True):
+            problems.append('molecule changed')
+        if stored is None or ['%.4f' % e for e in en] != ['%.4f' % e for e in stored]:
+            problems.append('stored energies')
+        if cg.mol_signature(src) != sig0:
+            problems.append('input modified')
+        if save:
+            if not os.path.isfile(path):
+                problems.append('file not written where asked')
+            else:
+                recs = cov.read_sdf_coords(path)
+                have = [np.array(cf.GetPositions()) for cf in mol.GetConformers()]
+                if len(recs) != len(have) or any(x is None or x.shape != y.shape or np.abs(x - y).max() > 1.01e-4 for x, y in zip(recs, have)):
+                    problems.append('saved file does not hold the returned conformers in order')
+            if sorted(os.listdir(tmp)) != [os.path.relpath(path, tmp).split(os.sep)[0]]:
+                problems.append('unexpected files written: %s' % sorted(os.listdir(tmp)))
+        # the values handed to the HDF5 buffer are the returned ones (a stub buffer: the third-party HDF5Buffer is not exercised)
+        class _Buf(object):
+            filename = 'stub'
+            got = None
+
+            def add_group(self, gname, gdict):
+                self.got = (gname, gdict)
+        buf = _Buf()
+        okv = GEN.values_to_hdf5(buf, r)
+        if okv is not True or buf.got is None or buf.got[0] != rname:
+            problems.append('values_to_hdf5 does not record the group under the molecule name')
+        else:
+            gd = buf.got[1]
+            try:
+                same = (list(np.asarray(gd['indices']['data'])) == list(idx) and list(np.asarray(gd['energies']['data'])) == list(en)
+                        and list(np.asarray(gd['rmsd']['data']).ravel()) == list(np.asarray(sparse).ravel())
+                        and int(gd['targetConfNum']['data']) == int(maxc) and int(gd['numRotatableBonds']['data']) == int(nrot))
+            except Exception:
+                same = False
+            if not same:
+                problems.append('values_to_hdf5 records other values than the returned ones')
+        if GEN.values_to_hdf5(_Buf(), r[:3]) is not False:
+            problems.append('values_to_hdf5 accepts a truncated tuple')
+        if problems:
+            md.fail('wrapper result inconsistent: ' + '; '.join(problems), 'wrapper:' + problems[0])
+        md.case('', 'q_list_eqb (triu %s 1%%nat) %s' % (cg.qmat(full['rmsds']), cg.qlist([float(x) for x in sparse])), 'triu %s 1%%nat' % cg.qmat(full['rmsds']))
+        md.nontrivial = len(idx) > 2
         return md
-    mol, rname, nrot, maxc, idx, en, sparse = r
-    full_mol, v = G.ConformerGenerator(get_values=True, sparse_rmsd=False, **kw).generate_conformers(U.mol_from_smiles(smi, name))
-    full = gen_obs(full_mol, v)
-    stored = U.get_conformer_energies_from_mol(mol)
-    md.payload['impl'] = {'indices': [int(x) for x in idx], 'energies': [float(x) for x in en], 'sparse_rmsd': [float(x) for x in sparse]}
-    problems = []
-    if rname != name:
-        problems.append('name')
-    if nrot != AllChem.CalcNumRotatableBonds(src):
-        problems.append('nrot')
-    if maxc != kw['num_conf']:
-        problems.append('max_conformers')
-    if [int(x) for x in idx] != full['indices'] or [float(x) for x in en] != full['energies']:
-        problems.append('indices/energies differ from the generator run with the same seed')
-    if mol.GetNumConformers() != len(idx) or len(en) != len(idx):
-        problems.append('lengths')
-    if stored is None or ['%.4f' % e for e in en] != ['%.4f' % e for e in stored]:
-        problems.append('stored energies')
-    if cg.mol_signature(src) != sig0:
-        problems.append('input modified')
-    if problems:
-        md.fail('wrapper result inconsistent: ' + '; '.join(problems), 'wrapper:' + problems[0])
-    md.case('', 'q_list_eqb (triu %s 1%%nat) %s' % (cg.qmat(full['rmsds']), cg.qlist([float(x) for x in sparse])), 'triu %s 1%%nat' % cg.qmat(full['rmsds']))
-    md.nontrivial = len(idx) > 2
+    finally:
+        if tmp:
+            cov.drop_dir(tmp)
+
+
+def draw_api(rng):
+    mols = cov.all_mols()
+    name, smi = mols[rng.randrange(len(mols))]
+    return {'molecule': name, 'smiles': smi, 'num_conf': rng.choice([2, 3, 4, 5]), 'first': rng.choice([-1, -1, 2]), 'pool_multiplier': rng.choice([1, 2]),
+            'rmsd_cutoff': rng.choice([None, 0.3, 0.6]), 'max_energy_diff': rng.choice([None, 4.0]), 'forcefield': rng.choice(['uff', 'mmff94', 'mmff94s']),
+            'seed': rng.choice([rng.randrange(1, 10 ** 6)] * 5 + cov.SEEDS_SPECIAL), 'stale_prop': rng.random() < 0.3}
+
+
+def make_api(p):
+    """The ways of calling one generator (get_values / sparse_rmsd / store_energies, __call__, keyword argument) return the same conformers,
+    energies and RMSDs as the full-valued run with the same seed."""
+    from rdkit import Chem
+    G, _, U = _mods()
+    md = Made(dict(p, stream='api'))
+    if forcefield_defect(md, p):
+        return md
+    kw = _kw(p)
+    name, smi = p['molecule'], p['smiles']
+
+    def src():
+        m = U.mol_from_smiles(smi, name)
+        if p.get('stale_prop'):
+            m.SetProp('_ConfEnergies', '9.0000|9.5000')
+        return m
+
+    def coords(m):
+        return [np.array(cf.GetPositions()).round(12).tolist() for cf in m.GetConformers()]
+    ref_mol, ref_v = G.ConformerGenerator(get_values=True, sparse_rmsd=False, **kw).generate_conformers(src())
+    ref = gen_obs(ref_mol, ref_v)
+    md.payload['impl'] = {x: ref[x] for x in ('indices', 'energies', 'rmsds', 'prop')}
+    bad = []
+    # default flags: a molecule only, energies stored
+    m1 = G.ConformerGenerator(**kw)(src())
+    if isinstance(m1, tuple) or not isinstance(m1, Chem.Mol):
+        bad.append('get_values=False does not return a molecule')
+    elif coords(m1) != ref['coords'] or (m1.GetProp('_ConfEnergies') if m1.HasProp('_ConfEnergies') else None) != ref['prop']:
+        bad.append('__call__ with get_values=False returns other conformers / stored energies')
+    # sparse RMSDs (the default of get_values=True)
+    m2, v2 = G.ConformerGenerator(get_values=True, **kw).generate_conformers(mol=src())
+    sparse = [float(x) for x in np.asarray(v2[3]).ravel()]
+    n = len(ref['indices'])
+    if coords(m2) != ref['coords'] or [int(x) for x in v2[1]] != ref['indices'] or [float(x) for x in v2[2]] != ref['energies'] or int(v2[0]) != ref['max_conformers']:
+        bad.append('sparse_rmsd=True changes conformers / indices / energies')
+    if np.asarray(v2[3]).ndim != 1 or sparse != [ref['rmsds'][a][b] for a in range(n) for b in range(a + 1, n)]:
+        bad.append('sparse RMSDs are not the upper triangle of the full matrix')
+    # store_energies=False: same conformers and values, nothing written on the molecule
+    m3, v3 = G.ConformerGenerator(get_values=True, sparse_rmsd=False, store_energies=False, **kw).generate_conformers(src())
+    o3 = gen_obs(m3, v3)
+    if any(o3[x] != ref[x] for x in ('coords', 'indices', 'energies', 'rmsds', 'max_conformers', 'smiles')):
+        bad.append('store_energies=False changes the result')
+    if not p.get('stale_prop') and o3['prop'] is not None:
+        bad.append('store_energies=False still stores energies')
+    stored = U.get_conformer_energies_from_mol(ref_mol)
+    if stored is None or len(stored) != ref_mol.GetNumConformers() or ref['prop'] != '|'.join('%.4f' % e for e in ref['energies']):
+        bad.append('stored energies are not the returned ones at 4 decimals')
+    ind = np.asarray(ref_v[1])
+    if ind.dtype.kind != 'i' or np.asarray(ref_v[2]).dtype.kind != 'f' or np.asarray(ref_v[3]).shape != (n, n) or not isinstance(ref_v[0], int):
+        bad.append('value types / shapes')
+    for b in bad:
+        md.fail('generator call forms disagree: ' + b, 'api:' + b.split(' ')[0])
+    md.case('', 'q_list_eqb (triu %s 1%%nat) %s' % (cg.qmat(ref['rmsds']), cg.qlist(sparse)), 'triu %s 1%%nat' % cg.qmat(ref['rmsds']))
+    md.nontrivial = n > 1
+    return md
+
+
+def make_eprop(p):
+    md = Made(dict(p, stream='energy-property'))
+    cov.check_eprop(md, p)
+    return md
+
+
+def make_ctor_type(p):
+    md = Made(dict(p, stream='ctor-types'))
+    cov.check_ctor_type(md, p, _mods()[0])
     return md
 
 
 MAKERS = {'synthetic': make_synth, 'options': make_options, 'real-filter': make_real, 'pipeline': make_pipeline, 'reuse': make_reuse,
-          'wrapper': make_wrapper}
-PARAM_KEYS = {'synthetic': ('smiles', 'k', 'E', 'T', 'conf_ids', 'cutoff_arg', 'ediff_arg', 'first_conformers', 'ties', 'symmetric'),
-              'options': ('nc', 'f', 'cut', 'ed', 'pm', 'hist'),
-              'real-filter': ('molecule', 'smiles', 'forcefield', 'num_conf', 'rmsd_cutoff', 'max_energy_diff', 'first', 'seed'),
-              'pipeline': ('molecule', 'smiles', 'forcefield', 'num_conf', 'pool_multiplier', 'first', 'rmsd_cutoff', 'max_energy_diff', 'seed', 'empty_pool'),
-              'reuse': ('num_conf', 'first', 'pool_multiplier', 'rmsd_cutoff', 'max_energy_diff', 'forcefield', 'seed', 'sequence'),
-              'wrapper': ('molecule', 'smiles', 'num_conf', 'first', 'pool_multiplier', 'rmsd_cutoff', 'max_energy_diff', 'forcefield', 'seed')}
+          'wrapper': make_wrapper, 'api': make_api, 'energy-property': make_eprop, 'ctor-types': make_ctor_type}
+DIRECT_ONLY = ('energy-property', 'ctor-types')      # checked on the implementation alone: no Coq case expected
+_OPTS = ('num_conf', 'first', 'pool_multiplier', 'rmsd_cutoff', 'max_energy_diff', 'forcefield', 'seed')
+PARAM_KEYS = {'synthetic': ('smiles', 'named', 'k', 'E', 'T', 'conf_ids', 'cutoff_arg', 'ediff_arg', 'first_conformers', 'ties', 'symmetric', 'energy_shift',
+                            'all_equal', 'fine_rmsd'),
+              'options': ('nc', 'f', 'cut', 'ed', 'pm', 'hist', 'ctype', 'positional', 'ff', 'seed'),
+              'real-filter': ('molecule', 'smiles', 'forcefield', 'num_conf', 'rmsd_cutoff', 'max_energy_diff', 'first', 'seed', 'ids', 'ids_seed'),
+              'pipeline': ('molecule', 'smiles', 'forcefield', 'num_conf', 'pool_multiplier', 'first', 'rmsd_cutoff', 'max_energy_diff', 'seed', 'empty_pool',
+                           'variant'),
+              'reuse': _OPTS + ('sequence', 'pattern', 'fail_at', 'keep_objects'),
+              'wrapper': ('molecule', 'smiles') + _OPTS + ('name_mode', 'positional', 'standardise', 'save', 'bad_option', 'defaults'),
+              'api': ('molecule', 'smiles') + _OPTS + ('stale_prop',),
+              'energy-property': ('energies', 'container', 'preset'),
+              'ctor-types': ('field', 'type', 'value')}
+
+
+def safe_make(stream, params):
+    """MAKERS[stream](params); an exception escaping from the implementation (or from an oracle called on its output) becomes a failure
+    of this case, with the parameters as the replayable input, instead of ending the run."""
+    try:
+        return MAKERS[stream](params)
+    except Exception as e:
+        import traceback
+        md = Made(dict(params, stream=stream))
+        tb = traceback.format_exc()
+        md.payload['impl'] = 'raised %s: %s' % (type(e).__name__, str(e)[:300])
+        md.fail('the %s case could not be completed: %s: %s' % (stream, type(e).__name__, str(e)[:200]), 'unexpected-exception:' + stream,
+                traceback=tb[-3000:])
+        return md
 
 
 def run(ctx):
@@ -541,13 +981,20 @@ def run(ctx):
     dist = {'cases_by_stream': {}, 'params_by_stream': {}, 'skipped': {}, 'synthetic_ties': 0, 'synthetic_asymmetric_oracle': 0,
             'synthetic_unstable_argsort_sizes': 0, 'synthetic_ids_not_positions': 0, 'accepted_count_hist': {}, 'reject_first': 0, 'reject_window': 0,
             'reject_rmsd': 0, 'ctor_errors_expected': 0, 'empty_pool_runs': 0, 'first_above_num_conf': 0, 'real_pools_measured': 0,
-            'getbestrms_max_asymmetry': 0.0, 'getbestrms_asymmetry_violations': 0, 'by_forcefield': {}}
+            'getbestrms_max_asymmetry': 0.0, 'getbestrms_asymmetry_violations': 0, 'by_forcefield': {},
+            # coverage extension (work/coverage_C13.md)
+            'direct_checks_by_stream': {}, 'synthetic_pool_molecule': {}, 'synthetic_unnamed_pool': 0, 'synthetic_energy_shift': {}, 'synthetic_all_equal': 0, 'synthetic_fine_rmsd_values': 0,
+            'synthetic_negative_lowest_energy': 0, 'options_numeric_type': {}, 'options_positional': 0, 'options_bad_forcefield': 0, 'options_seed': {},
+            'real_conformer_ids': {}, 'molecule_class_by_stream': {}, 'special_seed_runs': 0, 'pipeline_input_variant': {}, 'reuse_pattern': {},
+            'reuse_same_object_twice': 0, 'wrapper_name_mode': {}, 'wrapper_save_runs': 0, 'wrapper_refused_runs': 0, 'wrapper_standardise_runs': 0,
+            'wrapper_default_option_runs': 0, 'wrapper_positional': 0, 'mmff94s_defect_cases': 0, 'reuse_object_changed_in_place': 0, 'reuse_temporaries': 0}
+    cov.SCRATCH[0] = ctx.workdir
 
     def bump(d, k, n=1):
         d[k] = d.get(k, 0) + n
 
     def take(stream, tag, params, sample=False):
-        md = MAKERS[stream](params)
+        md = safe_make(stream, params)
         bump(dist['params_by_stream'], stream)
         for why in md.skips:
             bump(dist['skipped'], '%s: %s' % (stream, why))
@@ -560,11 +1007,19 @@ def run(ctx):
         for what, fk, extra in md.fails:
             found[0] = True
             ctx.fail(what, dict(md.payload, **extra), finding_key=fk)
+        dist['mmff94s_defect_cases'] += md.stats.get('mmff94s_defect', 0)
+        if md.stats.get('checks'):
+            bump(dist['direct_checks_by_stream'], stream, md.stats['checks'])
+        if md.stats.get('mol_class'):
+            bump(dist['molecule_class_by_stream'], '%s: %s' % (stream, md.stats['mol_class']))
+        if params.get('seed') in cov.SEEDS_SPECIAL and stream != 'options':
+            dist['special_seed_runs'] += 1
         if 'asymmetry' in md.stats:
             dist['real_pools_measured'] += 1
             dist['getbestrms_max_asymmetry'] = max(dist['getbestrms_max_asymmetry'], md.stats['asymmetry'])
             dist['getbestrms_asymmetry_violations'] += md.stats['asymmetry'] > SYM_TOL
-        ctx.count((stream, json.dumps({k: params.get(k) for k in PARAM_KEYS[stream]}, sort_keys=True, default=str)), md.nontrivial and bool(md.cases))
+        ctx.count((stream, json.dumps({k: params.get(k) for k in PARAM_KEYS[stream]}, sort_keys=True, default=str)),
+                  md.nontrivial and (bool(md.cases) or stream in DIRECT_ONLY))
         if sample and md.cases:
             ctx.sample({'case': '%s/%s' % (stream, tag), 'parameters': {k: params.get(k) for k in PARAM_KEYS[stream]},
                         'implementation': md.payload.get('impl'), 'model_check': md.cases[0][1][:300]})
@@ -577,28 +1032,68 @@ def run(ctx):
         dist['synthetic_asymmetric_oracle'] += (not c['symmetric'])
         dist['synthetic_unstable_argsort_sizes'] += (c['k'] > 16 and c['ties'])
         dist['synthetic_ids_not_positions'] += c['conf_ids'] != list(range(c['k']))
+        bump(dist['synthetic_pool_molecule'], c['smiles'])
+        bump(dist['synthetic_energy_shift'], str(c['energy_shift']))
+        dist['synthetic_unnamed_pool'] += (not c['named'])
+        dist['synthetic_all_equal'] += c['all_equal']
+        dist['synthetic_fine_rmsd_values'] += c['fine_rmsd']
+        dist['synthetic_negative_lowest_energy'] += min(c['E']) < 0
         if md.stats:
             bump(dist['accepted_count_hist'], md.stats['n_acc'])
             for k, v in md.stats['rej'].items():
                 dist['reject_' + k] += v
-    for i in range(ctx.n(150, 1500)):
-        md = take('options', str(i), draw_options(rng), sample=i < 1)
+    for i in range(ctx.n(200, 2000)):
+        p = draw_options(rng)
+        md = take('options', str(i), p, sample=i < 1)
         dist['ctor_errors_expected'] += md.stats.get('ctor_error', 0)
-    for i in range(ctx.n(24, 180)):
-        p = draw_real(rng, i)
+        dist['options_bad_forcefield'] += md.stats.get('bad_forcefield', 0)
+        bump(dist['options_numeric_type'], p['ctype'])
+        bump(dist['options_seed'], str(p['seed']))
+        dist['options_positional'] += p['positional']
+    for i in range(ctx.n(40, 400)):
+        take('ctor-types', str(i), cov.draw_ctor_type(rng))
+    for i in range(ctx.n(200, 2000)):
+        take('energy-property', str(i), cov.draw_eprop(rng))
+    # always drawn: the two molecules of the pool for which MMFF94 and MMFF94s differ, with forcefield='mmff94s'
+    for tag, (name, smi) in (('fixed-amide', ('amide', 'CC(=O)NCC')), ('fixed-anilide', ('anilide', 'CNc1ccccc1'))):
+        take('real-filter', tag, {'molecule': name, 'smiles': smi, 'forcefield': 'mmff94s', 'num_conf': 6, 'rmsd_cutoff': 0.3, 'max_energy_diff': None,
+                                  'first': -1, 'seed': 20 + rng.randrange(1000), 'ids': None, 'ids_seed': 0})
+        take('pipeline', tag, {'molecule': name, 'smiles': smi, 'forcefield': 'mmff94s', 'num_conf': 4, 'pool_multiplier': 2, 'first': -1, 'rmsd_cutoff': 0.3,
+                               'max_energy_diff': None, 'seed': 20 + rng.randrange(1000), 'empty_pool': False, 'variant': 'propertymol'})
+    off = rng.randrange(1000)
+    for i in range(ctx.n(120, 600)):
+        p = draw_real(rng, i, off)
         bump(dist['by_forcefield'], p['forcefield'])
-        take('real-filter', str(i), p, sample=i < 1)
-    for i in range(ctx.n(16, 120)):
-        md = take('pipeline', str(i), draw_pipeline(rng, i), sample=i < 1)
+        md = take('real-filter', str(i), p, sample=i < 1)
+        bump(dist['real_conformer_ids'], md.stats.get('ids', 'no-pool'))
+    for i in range(ctx.n(80, 400)):
+        md = take('pipeline', str(i), draw_pipeline(rng, i, off), sample=i < 1)
         dist['empty_pool_runs'] += md.stats.get('empty_pool', 0)
         dist['first_above_num_conf'] += md.stats.get('first_above_num_conf', 0)
-    for i in range(ctx.n(6, 40)):
-        take('reuse', str(i), draw_reuse(rng))
-    for i in range(ctx.n(6, 40)):
-        take('wrapper', str(i), draw_wrapper(rng))
+        bump(dist['pipeline_input_variant'], md.stats.get('variant', '?'))
+    for i in range(ctx.n(16, 80)):
+        md = take('reuse', str(i), draw_reuse(rng, i))
+        bump(dist['reuse_pattern'], md.stats.get('pattern', '?'))
+        dist['reuse_same_object_twice'] += md.stats.get('same_object_twice', 0)
+        dist['reuse_object_changed_in_place'] += md.stats.get('changed_in_place', 0)
+        dist['reuse_temporaries'] += md.stats.get('temporaries', 0)
+    for i in range(ctx.n(48, 240)):
+        md = take('wrapper', str(i), draw_wrapper(rng, i))
+        bump(dist['wrapper_name_mode'], md.stats.get('name_mode', '?'))
+        dist['wrapper_save_runs'] += bool(md.stats.get('save'))
+        dist['wrapper_refused_runs'] += bool(md.stats.get('bad_option'))
+        dist['wrapper_standardise_runs'] += bool(md.stats.get('standardise'))
+        dist['wrapper_default_option_runs'] += bool(md.stats.get('defaults'))
+        dist['wrapper_positional'] += bool(md.stats.get('positional'))
+    for i in range(ctx.n(30, 150)):
+        take('api', str(i), draw_api(rng), sample=i < 1)
 
     # a stream that compares nothing proves nothing
     for stream in MAKERS:
+        if stream in DIRECT_ONLY:
+            if not dist['direct_checks_by_stream'].get(stream):
+                ctx.fail('stream %s checked nothing' % stream, {'stream': stream}, no_input=True, kind='harness-error')
+            continue
         if not dist['cases_by_stream'].get(stream):
             ctx.fail('stream %s produced no comparable case (%d parameter sets drawn, skipped: %s)' % (stream, dist['params_by_stream'].get(stream, 0),
                      {k: v for k, v in dist['skipped'].items() if k.startswith(stream)}), {'stream': stream}, no_input=True, kind='harness-error')
@@ -607,15 +1102,21 @@ def run(ctx):
                               finding_key_of=lambda k, pl: 'model-vs-code:%s' % pl.get('stream'))
     found_input = found[0] or nbad > 0
     dist['accepted_count_hist'] = {str(k): v for k, v in sorted(dist['accepted_count_hist'].items())}
-    ctx.coverage['rule'] = ('synthetic: real k-conformer molecule (k in 1..24, conformer ids = positions / shifted / scattered), energies and RMSD table from a dyadic '
-                            'grid injected through the two oracle calls, options from grids hitting ties with the cut-off and the window edge; non-trivial = '
-                            '1 < #accepted < k. options: constructor + option state over histories of molecules with 0..15 rotatable bonds. real-filter: '
-                            'filter_conformers on e3fp-built pools with independently re-measured energies/RMSDs. pipeline / reuse: generate_conformers against the '
-                            'model\'s `generate (after_history ..)` on pools rebuilt with RDKit only, incl. the empty-pool RuntimeError; plus seed, identity, '
-                            'input-unmodified and wrapper checks; non-trivial = more than one conformer returned. distinct by full parameter set; every skipped '
-                            'comparison is counted under input_distribution.skipped with its reason')
+    ctx.coverage['rule'] = ('synthetic: real k-conformer molecule (k in 1..24; pool molecule plain, charged, two fragments, isotope-labelled, with a retained '
+                            'stereo hydrogen, symmetric; named or not; conformer ids = positions / shifted / scattered), energies (incl. negative, large, all equal) '
+                            'and RMSD table (dyadic grid, optionally + 2^-33) injected through the two oracle calls, options from grids hitting ties with the cut-off '
+                            'and the window edge; non-trivial = 1 < #accepted < k. options: constructor (keyword / positional, float / int / numpy option values, '
+                            'force-field names, seeds) + option state over histories of molecules with 0..15 rotatable bonds. ctor-types / energy-property: '
+                            'implementation only. real-filter: filter_conformers on e3fp-built pools (ids optionally shifted / scattered / gapped) with independently '
+                            're-measured energies/RMSDs and an RDKit-only repeat of the minimisation. pipeline / reuse: generate_conformers against the model\'s '
+                            '`generate (after_history ..)` on pools rebuilt with RDKit only (input handed over as PropertyMol / bare Mol / with hydrogens / with '
+                            'conformers / with stale properties; histories A B A on one object, a failing molecule in the middle, a second generator in between, '
+                            'an input changed in place), incl. the empty-pool RuntimeError; plus seed (0 and 2^31-1 included), identity (charges, isotopes, '
+                            'fragments, name), input-unmodified, wrapper (names, positional, saving with every compression, existing file, refused options, '
+                            'standardise, defaults, HDF5 values) and call-form (api) checks; non-trivial = more than one conformer returned. distinct by full '
+                            'parameter set; every skipped comparison is counted under input_distribution.skipped with its reason')
     ctx.coverage['input_distribution'] = dist
-    ctx.coverage['trusted_base'] = ['RDKit (ETKDG embedding, UFF/MMFF94 minimisation and energies, GetBestRMS, AddHs/RemoveHs, conformer copying): oracles of the '
+    ctx.coverage['trusted_base'] = ['RDKit (ETKDG embedding, UFF/MMFF94/MMFF94s minimisation and energies under RDKit\'s own variant names, GetBestRMS, AddHs/RemoveHs, conformer copying): oracles of the '
                                     'model; their determinism under a seed and the identity of the molecule are exercised by the pipeline/reuse/wrapper streams only '
                                     '(testing, not proof)']
     ctx.assumptions += ['np.argsort returns a permutation that sorts the energies (any such permutation is covered by the theorems; the unstable default sort is '
@@ -626,7 +1127,7 @@ def run(ctx):
                         'float comparisons equal exact rational comparisons: synthetic values are dyadic (exact); real cases within round-off of a threshold are skipped '
                         'and counted (input_distribution.skipped)',
                         'PARTIAL: seed reproducibility, input-unmodified, graph/stereo preservation and the wrapper are tests on %d RDKit runs, not theorems'
-                        % sum(dist['params_by_stream'].get(s, 0) for s in ('real-filter', 'pipeline', 'reuse', 'wrapper'))]
+                        % sum(dist['params_by_stream'].get(s, 0) for s in ('real-filter', 'pipeline', 'reuse', 'wrapper', 'api'))]
     if not ok:
         core.report_broken_proof(ctx, res, found_input)
 
@@ -643,8 +1144,9 @@ def replay(ctx, path):
         print('no re-runnable case in this replay file (kind=%s)' % d.get('kind'))
         return 1
     params = {k: c[k] for k in PARAM_KEYS[stream] if k in c}
+    cov.SCRATCH[0] = ctx.workdir
     print('stream %s, parameters: %s' % (stream, json.dumps(params, default=str)[:3000]))
-    md = MAKERS[stream](params)
+    md = safe_make(stream, params)
     print('implementation now:', json.dumps(md.payload.get('impl'), default=str)[:3000])
     bad = 0
     for what, fk, extra in md.fails:
